@@ -39,11 +39,14 @@ type c11Msg struct {
 type c11P struct {
 	Msgs      []c11Msg `json:"msgs"`
 	Verifier  string   `json:"verifier"` // set | late (set after the first message is waiting) | never
+	// Restart: the Subscriber is stopped and started again (same object, verifier registered before) before any
+	// message is published; the registered verifier must keep deciding
+	Restart bool `json:"restart,omitempty"`
 }
 
 var (
 	c11Payloads = []string{"valid", "invalid-fields", "wrong-chain", "garbage", "truncated", "empty", "decode-panic"}
-	c11Verdicts = []string{"nil", "soft", "hard", "wrapped-soft", "wrapped-hard", "plain", "panic"}
+	c11Verdicts = []string{"nil", "soft", "hard", "wrapped-soft", "wrapped-hard", "plain", "panic", "hard-around-soft", "soft-around-hard"}
 )
 
 func TestC11(t *testing.T) {
@@ -67,6 +70,12 @@ func TestC11(t *testing.T) {
 			n := min(5, len(ms))
 			mon.Emit(r, "gossip", c11P{Msgs: ms[:n:n], Verifier: "set"}, "gossip")
 			ms = ms[n:]
+		}
+	}
+	// Stop + Start of the same Subscriber: the verifier registered before keeps deciding
+	for rep := 0; rep < r.N(1, 20); rep++ {
+		for _, v := range c11Verdicts {
+			mon.Emit(r, "gossip", c11P{Msgs: []c11Msg{{Payload: "valid", Verdict: v}, {Payload: "invalid-fields", Verdict: "nil"}, {Payload: "valid", Verdict: "nil"}}, Verifier: "set", Restart: true}, "gossip")
 		}
 	}
 	for _, pl := range c11Payloads {
@@ -94,6 +103,10 @@ func c11Verdict(v string) error {
 		return fmt.Errorf("wrapped: %w", &header.VerifyError{Reason: errC11Cause, SoftFailure: true})
 	case "wrapped-hard":
 		return fmt.Errorf("wrapped: %w", &header.VerifyError{Reason: errC11Cause})
+	case "hard-around-soft": // a hard VerifyError whose reason is a soft one: the result itself is hard
+		return &header.VerifyError{Reason: &header.VerifyError{Reason: errC11Cause, SoftFailure: true}}
+	case "soft-around-hard":
+		return &header.VerifyError{Reason: &header.VerifyError{Reason: errC11Cause}, SoftFailure: true}
 	case "plain":
 		return errC11Cause
 	}
@@ -207,6 +220,24 @@ func c11Run(c *mon.Case, p c11P) {
 		time.Sleep(3 * time.Second) // heartbeats: mesh formation (virtual)
 		synctest.Wait()
 
+		if p.Restart {
+			subscription.Cancel()
+			if err := sub.Stop(context.Background()); err != nil {
+				c.Violation("subscriber-stop-fails", fmt.Sprint(err), nil)
+				return
+			}
+			if err := sub.Start(context.Background()); err != nil {
+				c.Violation("subscriber-restart-fails", fmt.Sprint(err), nil)
+				return
+			}
+			if subscription, err = sub.Subscribe(); err != nil {
+				c.Violation("subscribe-after-restart-fails", fmt.Sprint(err), nil)
+				return
+			}
+			time.Sleep(3 * time.Second) // the mesh forms again
+			synctest.Wait()
+			c.Count("subscriber restarts", 1)
+		}
 		// collectors
 		var dmu sync.Mutex
 		deliveredB := map[string]H{}
@@ -326,7 +357,7 @@ func c11Run(c *mon.Case, p c11P) {
 				want = "ignore"
 			case s.m.Verdict == "nil":
 				want = "accept"
-			case s.m.Verdict == "soft" || s.m.Verdict == "wrapped-soft":
+			case s.m.Verdict == "soft" || s.m.Verdict == "wrapped-soft" || s.m.Verdict == "soft-around-hard":
 				want = "ignore"
 			}
 			evs := tracer.get(id)
@@ -398,7 +429,7 @@ func c11Run(c *mon.Case, p c11P) {
 			}
 		}
 		sort.Strings(classes)
-		c.Class("verifier=%s %s", p.Verifier, strings.Join(classes, " "))
+		c.Class("verifier=%s restart=%v %s", p.Verifier, p.Restart, strings.Join(classes, " "))
 
 		// teardown
 		pscancel()
